@@ -828,6 +828,22 @@ impl ZmtpEngine {
   }
 }
 
+#[cfg(any(rzmq_verif, kani))]
+impl ZmtpEngine {
+  pub fn verif_version(&self) -> Option<ZmtpVersion> {
+    self.version
+  }
+  pub fn verif_partial_batch_len(&self) -> usize {
+    self.partial_batch.len()
+  }
+  pub fn verif_waiting_for_pong(&self) -> bool {
+    self.waiting_for_pong
+  }
+  pub fn verif_validate_v2_compatibility(&self, peer_byte: u8) -> bool {
+    self.validate_v2_compatibility(peer_byte).is_ok()
+  }
+}
+
 // --- Module-level helpers ---
 
 fn local_mechanism_name_bytes(config: &ZmtpEngineConfig) -> &'static [u8; MECHANISM_LENGTH] {
